@@ -653,4 +653,148 @@ theorem transfer_panic {ctx : Ctx} {a m : Expr} (h : bodiesEquiv ctx a m = true)
     ∃ msg', eval w.Γ chk ρ a = .error (.panic msg') :=
   (bodiesEquiv_sound h w chk chk' ρ hρ harg).panic_left hm
 
+/-! ## Refutation: a proposed input really distinguishes two bodies with different normal forms -/
+
+/-- setting one bit -/
+theorem testBit_or_bit (x j k : Nat) : (x ||| (1 <<< j)).testBit k = (x.testBit k || decide (j = k)) := by
+  rw [Nat.testBit_or, Nat.one_shiftLeft, Nat.testBit_two_pow]
+
+theorem srcWitness_sound {a b : Src} {r v : Nat} (h : srcWitness a b = some (r, v)) : a.eval r v ≠ b.eval r v := by
+  unfold srcWitness at h
+  split at h
+  · rename_i x y
+    split at h
+    · exact absurd h (by simp)
+    · rename_i hne
+      simp only [Src.eval]; exact hne
+  · rename_i x arg j n
+    injection h with h
+    cases arg <;> cases x <;> cases n <;> simp at h <;> obtain ⟨rfl, rfl⟩ := h <;> simp [Src.eval, testBit_or_bit]
+  · rename_i arg j n y
+    injection h with h
+    cases arg <;> cases y <;> cases n <;> simp at h <;> obtain ⟨rfl, rfl⟩ := h <;> simp [Src.eval, testBit_or_bit]
+  · rename_i a1 j1 n1 a2 j2 n2
+    split at h
+    · rename_i hsame
+      split at h
+      · exact absurd h (by simp)
+      · rename_i hn
+        simp only [Option.some.injEq, Prod.mk.injEq] at h
+        obtain ⟨rfl, rfl⟩ := h
+        obtain ⟨rfl, rfl⟩ := hsame
+        cases a1 <;> cases n1 <;> cases n2 <;> simp_all [Src.eval]
+    · rename_i hdiff
+      injection h with h
+      have hj : a1 = a2 → j1 ≠ j2 := fun e hj => hdiff ⟨e, hj⟩
+      cases a1 <;> cases a2 <;> cases n1 <;> cases n2 <;> simp at h <;> obtain ⟨rfl, rfl⟩ := h <;>
+        simp [Src.eval, testBit_or_bit] <;>
+        (intro hle; exact Nat.testBit_lt_two_pow (Nat.one_lt_two_pow (by have := hj rfl; omega)))
+  · exact absurd h (by simp)
+
+
+theorem listWitness_sound {r v : Nat} : ∀ (a b : List Src), listWitness a b = some (r, v) → den r v a ≠ den r v b := by
+  intro a
+  induction a with
+  | nil => intro b h; simp [listWitness] at h
+  | cons x xs ih =>
+    intro b h
+    cases b with
+    | nil => simp [listWitness] at h
+    | cons y ys =>
+      simp only [listWitness] at h
+      simp only [den]
+      by_cases hxy : x = y
+      · rw [if_pos hxy] at h
+        subst hxy
+        have := ih ys h
+        omega
+      · rw [if_neg hxy] at h
+        cases hs : srcWitness x y with
+        | some p =>
+          rw [hs] at h
+          simp only [Option.orElse_some, Option.some.injEq] at h
+          subst h
+          have := srcWitness_sound hs
+          cases hx : x.eval r v <;> cases hy : y.eval r v <;> simp_all <;> omega
+        | none =>
+          rw [hs] at h
+          simp only [Option.orElse_none] at h
+          have := ih ys h
+          cases x.eval r v <;> cases y.eval r v <;> simp <;> omega
+
+/-- **a proposed input refutes the equivalence**: if the normal forms of two bodies differ in a position where both are
+    a constant or a single input bit, the proposed raw value and written value make the two bodies evaluate differently
+    (results that are `T::new_with_raw_value(..)` calls excepted: nothing is known about the user's function) -/
+theorem resWitness_sound {w : World} {r r' : SRes} {res res' : R} (hr : Denotes w r res) (hr' : Denotes w r' res')
+    (h : resWitness r r' = some (w.raw, w.fv)) (hnc : ∀ t sv, r ≠ .call t sv) : ¬ ResEq res res' := by
+  intro heq
+  cases r with
+  | call t sv => exact hnc t sv rfl
+  | panic =>
+    cases r' with
+    | ok sv' =>
+      obtain ⟨m, rfl⟩ := hr
+      obtain ⟨v', rfl, _⟩ := hr'
+      rcases heq with e | ⟨_, ⟨m', e⟩⟩
+      · exact absurd e (by simp)
+      · exact absurd e (by simp)
+    | panic => simp [resWitness] at h
+    | call _ _ => simp [resWitness] at h
+  | ok sv =>
+    obtain ⟨v, rfl, hm⟩ := hr
+    cases r' with
+    | panic =>
+      obtain ⟨m, rfl⟩ := hr'
+      rcases heq with e | ⟨⟨m', e⟩, _⟩
+      · exact absurd e (by simp)
+      · exact absurd e (by simp)
+    | call _ _ => simp [resWitness] at h
+    | ok sv' =>
+      obtain ⟨v', rfl, hm'⟩ := hr'
+      have hvv : v = v' := by
+        rcases heq with e | ⟨⟨m', e⟩, _⟩
+        · injection e
+        · exact absurd e (by simp)
+      subst hvv
+      simp only [resWitness] at h
+      cases sv with
+      | int t a =>
+        cases sv' with
+        | int t' b =>
+          have := listWitness_sound a b h
+          obtain ⟨_, e1⟩ := hm
+          obtain ⟨_, e2⟩ := hm'
+          rw [e1] at e2; injection e2 with _ e3; exact this e3
+        | _ => simp [svalWitness] at h
+      | uint n a =>
+        cases sv' with
+        | uint n' b =>
+          have := listWitness_sound a b h
+          obtain ⟨_, e1⟩ := hm
+          obtain ⟨_, e2⟩ := hm'
+          rw [e1] at e2; injection e2 with _ e3; exact this e3
+        | _ => simp [svalWitness] at h
+      | bool s =>
+        cases sv' with
+        | bool s' =>
+          have := srcWitness_sound h
+          have e1 : v = .bool (s.eval w.raw w.fv) := hm
+          have e2 : v = .bool (s'.eval w.raw w.fv) := hm'
+          rw [e1] at e2; injection e2 with e3; exact this e3
+        | _ => simp [svalWitness] at h
+      | cust => cases sv' <;> simp [svalWitness] at h
+
+
+/-- if both bodies have a normal form and `resWitness` proposes `(raw, written value)`, then in every environment that
+    holds exactly these inputs the two bodies do **not** evaluate alike – so when the normaliser answers `differ` (and
+    the results are not calls of a user function) a failing input for the *translated* body exists and is the proposed one;
+    the run executes the real code on it -/
+theorem witness_refutes {ctx : Ctx} {a m : Expr} {r r' : SRes} (w : World) (chk chk' : Bool) (ρ : Env)
+    (ha : nf ctx ctx.init a = some r) (hm : nf ctx ctx.init m = some r')
+    (hw : resWitness r r' = some (w.raw, w.fv)) (hnc : ∀ t sv, r ≠ .call t sv)
+    (hρ : EnvOk w ctx ρ) (hi : ∀ i, ctx.index = some i → ρ.index = .int .usize i) (harg : ArgOk w ctx) :
+    ¬ ResEq (eval w.Γ chk ρ a) (eval w.Γ chk' ρ m) :=
+  resWitness_sound (nf_sound w chk ctx harg a _ ρ r (init_ok hρ hi) ha)
+    (nf_sound w chk' ctx harg m _ ρ r' (init_ok hρ hi) hm) hw hnc
+
 end Bb.Nf
